@@ -44,9 +44,8 @@ def run(ctx):
                 dump_trace=True, timeout=ctx.pick(1800, 6000))
     ctx.require_coverage(g, INVARIANT_ACTIONS, "MC_Gen")
     cases = ctx.read_emitted(g, "cases.ndjson")
-    rg = ctx.tlc(SPEC, "Gen_Rows", cfg="Gen_Rows" + suffix, workers=1, label="Gen_Rows", dump_trace=False, timeout=900)
-    rows = ctx.read_emitted(rg, "rows.ndjson")
-    world = ctx.read_emitted(rg, "world.ndjson")
+    rows = ctx.read_emitted(g, "rows.ndjson")        # the steps table and the world, written by ASSUMEs of MC_Admission
+    world = ctx.read_emitted(g, "world.ndjson")
     if len(rows) != 45 or len(world) != 1:
         ctx.broken("expected 45 rows and one world, got %d rows, %d worlds" % (len(rows), len(world)))
     by_rule = {}
@@ -63,8 +62,8 @@ def run(ctx):
     ctx.extra["steps_table"] = [{"step": r["id"], "rule": r["rule"], "accepts": r["accepts"], "others": r["others"],
                                  "observe": r["observe"]} for r in sorted(rows, key=lambda x: x["id"])]
     # 3. replay on the real code, one harness per package
-    only = os.environ.get("VERIF_C12_ONLY")
-    total_expected = 0
+    only = os.environ.get("VERIF_C12_ONLY")      # development aid: comma separated labels
+    jobs = []
     for pkg, label in PKGS:
         if only and label not in only.split(","):
             continue
@@ -72,11 +71,31 @@ def run(ctx):
         need = sorted({r["rule"] for r in prow})
         pcases = [c for rule in need for c in by_rule[rule]]
         expected = sum(len(by_rule[r["rule"]]) for r in prow)
-        total_expected += expected
-        go = ctx.gotest(pkg, "^TestVerif_C12_", ["c12_test.go"], extra_overlay=OV, label=label,
-                        inputs={"rows.ndjson": prow, "world.ndjson": world, "cases.ndjson": pcases},
-                        timeout=ctx.pick(1500, 3600))
-        ctx.absorb(go, require_evals=expected)
+        jobs.append((pkg, label, prow, pcases, expected))
+
+    def one(job):
+        pkg, label, prow, pcases, expected = job
+        return ctx.gotest(pkg, "^TestVerif_C12_", ["c12_test.go"], extra_overlay=OV, label=label,
+                          inputs={"rows.ndjson": prow, "world.ndjson": world, "cases.ndjson": pcases},
+                          timeout=ctx.pick(2400, 5400))
+
+    # the eight harness binaries are independent: build and run them side by side
+    # (each call works in its own scratch directory; results are folded in afterwards, in order)
+    from concurrent.futures import ThreadPoolExecutor
+    with ThreadPoolExecutor(max_workers=int(os.environ.get("VERIF_C12_JOBS", "4"))) as pool:
+        futures = [pool.submit(one, j) for j in jobs]
+        results = []
+        for f in futures:
+            try:
+                results.append(f.result())
+            except Exception as ex:      # Broken (build failure, timeout, ...) or anything else: report after all finished
+                results.append(ex)
+    total_expected = 0
+    for job, go in zip(jobs, results):
+        if isinstance(go, Exception):
+            raise go
+        total_expected += job[4]
+        ctx.absorb(go, require_evals=job[4])
     return ctx.finish(
         level="model_checking",
         rule="every case of the finite input space of each rule (receiver x sender key x wire index x payload type x context "
